@@ -1,7 +1,156 @@
 import AmqModel.Model.ConnRun
-namespace AmqModel.Props.C08
-open AmqModel.Conn
+import AmqModel.Props.C20
+import AmqModel.Lemmas.ConnC08
+/-!
+# C08 — connection close handshake: final frame, notifications, result
 
-theorem placeholder : (Conn.init 1 1).dead = false := rfl
+Property theorems only; helper lemmas live in `AmqModel/Lemmas/ConnC08.lean` (and the shared
+library `AmqModel/Lemmas/Conn.lean`).
+-/
+namespace AmqModel.Props.C08
+open AmqModel.Conn AmqModel.Collector
+
+/-- CLIENT CLOSE: the Connection.Close buffer handed over by `Connection::close` is appended to the
+    outbound data and writes are sealed in the same step. -/
+theorem client_close_seals (c : Conn) (n : Nat) (buf : Bytes) (hs : c.sealed = false) :
+    processChannelMessage c n (.connectionClose buf) = ({ c with out := c.out ++ buf, sealed := true }, none) := by
+  unfold processChannelMessage
+  dsimp only
+  rw [pushOut_of_not_sealed hs]
+  rfl
+
+/-- SEALED ABSORBS: once sealed, nothing a client submits and nothing the I/O thread pushes is
+    appended any more. -/
+theorem sealed_absorbs (c : Conn) (n : Nat) (b : Bytes) (hs : c.sealed = true) :
+    pushOut c b = c ∧ processChannelMessage c n (.send b) = (c, none) ∧
+    processChannelMessage c n (.connectionClose b) = (c, none) := by
+  refine ⟨pushOut_of_sealed hs b, ?_, ?_⟩
+  · unfold processChannelMessage
+    dsimp only
+    rw [pushOut_of_sealed hs]
+  · unfold processChannelMessage
+    dsimp only
+    rw [sealOut_pushOut_of_sealed hs]
+
+/-- NOTHING AFTER THE CLOSE POINT, over every continuation: from a sealed state, whatever happens
+    next (any client operations, events, frames, transport behaviour, in any order and number) the
+    outbound buffer only loses bytes from its front — to the transport — and stays sealed. -/
+theorem nothing_after_close_point (c : Conn) (ops : List Op) (hs : c.sealed = true) :
+    (run c ops).sealed = true ∧ ∃ k, (run c ops).out = c.out.drop k :=
+  let h := shut_run (Shut.init hs) ops
+  ⟨h.sealed, h.out⟩
+
+/-- … and what the transport receives is exactly those bytes, in order: a write hands over a
+    prefix of the buffer and keeps the rest (nothing lost, duplicated or reordered), also when it
+    ends in would-block or in an error. -/
+theorem write_hands_over_prefix (c : Conn) :
+    let r := writeToStream c
+    ∃ k, r.2.1 = c.out.take k ∧ (r.2.2 = none → r.1.out = c.out.drop k) ∧
+      (r.2.2 ≠ none → r.2.2 = some .ioErrorWritingSocket ∧ r.1.out = c.out) :=
+  writeToStream_wrote c
+-- NOTE: on a write error the model leaves `out` untouched although `k` bytes may have been taken by
+-- the transport (the real code does the same: the loop is dead anyway).
+
+/-- CloseOk from the server (client close confirmed): the connection's own handle gets the
+    CloseOk reply, the state becomes ClientClosed, every channel is dropped. -/
+theorem close_ok_received (c : Conn) (fields : List Field) (dc df : Bytes) (hs : c.st = .steady)
+    (halive : (getLink c 0).clientAlive = true) (hroom : (getLink c 0).replies.length < 2)
+    (hslots : c.slots = []) :
+    let r := process c (.method 0 10 51 fields) dc df
+    r.2 = none ∧ r.1.st = .clientClosed ∧
+    (getLink r.1 0).replies = (getLink c 0).replies ++ [.method 10 51 []] ∧ r.1.out = c.out := by
+  intro r
+  have hr : r = _ := (process_closeOk_eq hs fields dc df halive hroom).trans
+    (drainSlots_nil (by rw [closeState_slots]; exact hslots) _ _)
+  have e : getLink r.1 0 = getLink (closeState (setLink c 0
+      { (getLink c 0) with replies := (getLink c 0).replies ++ [.method 10 51 []] }) .clientClosed) 0 := by
+    rw [hr]; exact getLink_congr rfl 0
+  refine ⟨by rw [hr], by rw [hr]; rfl, ?_, by rw [hr]; rfl⟩
+  rw [e, getLink_closeState_zero, getLink_setLink_self]
+
+/-- Notification of open channels at a connection close (either side): every slot's handle gets
+    the close error at the end of its reply queue, every consumer gets the terminal message, and
+    all slots are gone — when every handle and consumer is there to be told. -/
+theorem close_notifies_all (c : Conn) (r : Reply) (m : CMsg)
+    (hh : ∀ p ∈ c.slots, (getLink c p.2.lid).clientAlive = true ∧ (getLink c p.2.lid).replies.length < 2)
+    (hc : ∀ p ∈ c.slots, ∀ e ∈ p.2.consumers, ∃ q, lookupN e.2 c.cqs = some q ∧ q.rxAlive = true)
+    (hlid : (c.slots.map (·.2.lid)).Nodup)
+    (hq : (c.slots.flatMap (fun p => p.2.consumers.map (·.2))).Nodup) :
+    let d := drainSlots c r m
+    d.2 = none ∧ d.1.slots = [] ∧
+    (∀ p ∈ c.slots, (getLink d.1 p.2.lid).replies = (getLink c p.2.lid).replies ++ [r] ∧ (getLink d.1 p.2.lid).ioAlive = false) ∧
+    (∀ p ∈ c.slots, ∀ e ∈ p.2.consumers, ∀ q, lookupN e.2 c.cqs = some q →
+        lookupN e.2 d.1.cqs = some { q with msgs := q.msgs ++ [m], txAlive := false }) := by
+  intro d
+  have hd : d = drainSlots.go r m c.slots { c with slots := [], alloc := (Slots.drain c.alloc).1 } c.slots := rfl
+  obtain ⟨g1, g2, _, g4, _⟩ := drainSlots_go_spec r m c.slots c.slots
+    { c with slots := [], alloc := (Slots.drain c.alloc).1 } hh hc hlid hq
+  rw [← hd] at g1 g2 g4
+  exact ⟨g1, (drainSlots_spec c r m).2.2.2.1, g2, g4⟩
+
+/-- The two close arms use exactly those notifications. -/
+theorem server_close_uses (c : Conn) (code : Nat) (text dc df : Bytes) (hs : c.st = .steady) :
+    ∃ c', c'.slots = c.slots ∧ c'.cqs = c.cqs ∧ (∀ lid, lid ≠ 0 → getLink c' lid = getLink c lid) ∧
+      process c (.method 0 10 50 [.nat code, .bytes text]) dc df =
+        drainSlots c' (.err (.serverClosedConnection code text)) (.serverClosedConnection code text) := by
+  refine ⟨closeState (sealOut (pushOut c connectionCloseOk)) (.serverClosing code text), ?_, ?_,
+    fun lid hl => ?_, process_serverClose_eq hs code text dc df⟩
+  · rw [closeState_slots]; exact pushOut_slots c _
+  · rw [closeState_cqs]; exact pushOut_cqs c _
+  · rw [getLink_closeState_ne _ _ hl]
+    exact (getLink_congr (c := pushOut c connectionCloseOk) rfl lid).trans (getLink_pushOut c _ lid)
+
+theorem client_close_ok_uses (c : Conn) (fields : List Field) (dc df : Bytes) (hs : c.st = .steady)
+    (halive : (getLink c 0).clientAlive = true) (hroom : (getLink c 0).replies.length < 2) :
+    ∃ c', c'.slots = c.slots ∧ c'.cqs = c.cqs ∧ (∀ lid, lid ≠ 0 → getLink c' lid = getLink c lid) ∧
+      process c (.method 0 10 51 fields) dc df =
+        drainSlots c' (.err .clientClosedConnection) .clientClosedConnection := by
+  refine ⟨_, ?_, ?_, fun lid hl => ?_, process_closeOk_eq hs fields dc df halive hroom⟩
+  · rfl
+  · rfl
+  · rw [getLink_closeState_ne _ _ hl, getLink_setLink_ne _ (fun e => hl e.symm)]
+
+/-- RESULT: the loop is done immediately after a confirmed client close; after a server close (or
+    a client exception) exactly when everything queued — ending with CloseOk / Close — has been
+    handed to the transport; never while steady. -/
+theorem close_result (c : Conn) :
+    (c.st = .clientClosed → isDone c = some true) ∧
+    (c.st = .steady → isDone c = some false) ∧
+    (∀ code text, c.st = .serverClosing code text → c.sealed = true → isDone c = some c.out.isEmpty) ∧
+    (c.st = .clientException → c.sealed = true → isDone c = some c.out.isEmpty) := by
+  refine ⟨fun h => ?_, fun h => ?_, fun code text h hs => ?_, fun h hs => ?_⟩
+  · unfold isDone; rw [h]
+  · unfold isDone; rw [h]
+  · unfold isDone; rw [h]; dsimp only; rw [hs]; rfl
+  · unfold isDone; rw [h]; dsimp only; rw [hs]; rfl
+
+/-- A frame arriving after the close point (heartbeat, anything) changes nothing (D8/D12). -/
+theorem frames_after_close_ignored (c : Conn) (f : Frame) (dc df : Bytes) (hl : c.legacy = false) (hs : c.st ≠ .steady) :
+    process c f dc df = (c, none) :=
+  process_nonsteady hl hs f dc df
+
+/-- D12, the code before the repair: a heartbeat right after the server's Connection.Close. -/
+example :
+    let c0 := Conn.init 4 4 true
+    let c1 := (process c0 (.method 0 10 50 [.nat 320, .bytes []]) [] []).1
+    (process c1 (.heartbeat 0) [] []).2 = some .frameUnexpected := by decide
+
+/-- D8. A finished client-initiated close wins over whatever the socket does afterwards: in the
+    ClientClosed state a readable event never yields an error, whatever arrives (end of stream,
+    reset, malformed bytes, stray frames). -/
+theorem closed_client_ignores_read_errors (c : Conn) (w : Bool) (hl : c.legacy = false)
+    (hs : c.st = .clientClosed) (hnw : w = false) :
+    (handleEvent c (.stream true w)).2.2 = none := by
+  subst hnw
+  have hr := (readFromStream_nonsteady hl (c := c) (by rw [hs]; exact fun h => nomatch h)).1
+  have hl' : (readFromStream c).1.legacy = false := hr.legacy.trans hl
+  have hs' : (readFromStream c).1.st = .clientClosed := hr.st.trans hs
+  unfold handleEvent
+  simp only [Bool.false_eq_true, ↓reduceIte, hl', hs', Bool.not_false, decide_true, Bool.and_self]
+
+/-- The code before the repair reported the server's hang-up after CloseOk as an error. -/
+example :
+    let c0 := { (Conn.init 4 4 true) with st := .clientClosed }
+    (handleEvent { c0 with reads := [.eof] } (.stream true false)).2.2 = some .unexpectedSocketClose := by decide
 
 end AmqModel.Props.C08
